@@ -217,7 +217,7 @@ def extra_checks(tier, rng, findings):
     """thorough tier: re-run the corpus and a quick-size sample against the harness built with the
     release profile (debug assertions and overflow checks off: `<<`/`>>` amounts wrap instead of panicking,
     `debug_assert!`s vanish), compare with model and spec again."""
-    if tier != 'thorough':
+    if tier != 'thorough' and __import__('os').environ.get('VERIF_RELEASE_RERUN') != '1':
         return {}
     import os
     import random
